@@ -77,7 +77,8 @@ def source(family, mode, support, config_dialect=None):
         chunks = [holder, INNER] if post else [INNER, holder]
         roles = ["H"]
     elif family == "inherit":
-        c0 = f"@dataclass\nclass C0(DataClassDictMixin):\n    d: date\n    o: Optional[int] = None\n{cfg}"
+        c0 = (f"@dataclass\nclass C0(DataClassDictMixin):\n    d: date\n    o: Optional[int] = None\n"
+              f"    al: int = field(default=3, metadata=field_options(alias='AL'))\n{cfg}")
         c = f"@dataclass\nclass C(C0):\n    i: Optional[{q('Inner')}] = None\n"
         c2 = "@dataclass\nclass C2(C):\n    e: int = 5\n"
         chunks = [c0, c, c2, INNER] if post else [INNER, c0, c, c2]
